@@ -137,7 +137,7 @@ def broken_pipe_csv(run, label, queries, recsA, maxA, recsB='R_none', maxB=0, hd
     ec.validate_engine_traces(run, traces, label + '-csvwriter', {})
 
 
-BYTE_ALPHABET = [97, 10, 44, 195, 169, 226, 130, 172, 240, 159, 152, 128, 255, 237, 160]
+BYTE_ALPHABET = [97, 10, 13, 44, 195, 169, 226, 130, 172, 240, 159, 152, 128, 255, 237, 160]     # incl. CR: a bad byte hit by the 1-character look-ahead read
 
 
 def _bytes_chunk(items):
